@@ -44,47 +44,67 @@ def check_dispatch(res, repo):
         else:
             res.fail(rule, finding("C19", rule, ap, ap.node, f"the type dispatch of append no longer routes to {conv}", construct=f"append: {conv}"))
     # sibling agreement: the first-element types from_list recognises must be routed to it by the dispatcher
-    fl = repo.method("hexital.core.candle", "Candle", "from_list")
-    fl_types = set()
-    for c in calls_in(fl.node):
-        if call_name(c) == "isinstance" and len(c.args) == 2 and _is_first_elem(c.args[0], fl.node):
-            fl_types |= _type_names(c.args[1])
+    fl_types = from_list_leading_types(repo)
+    if fl_types is None:
+        fl_types = set()  # (undecided shapes are reported by check_converters)
     arm_types = set()
     for n in ast.walk(ap.node):
         if isinstance(n, ast.If):
             t = n.test
             if isinstance(t, ast.Call) and call_name(t) == "isinstance" and _is_first_elem(t.args[0], ap.node) and any(call_target(c) == "Candle.from_list" for st in n.body for c in calls_in(st)):
                 arm_types |= _type_names(t.args[1])
-    if fl_types and fl_types <= arm_types | {"float", "int"} and {"float", "int"} <= arm_types:
+    if fl_types <= arm_types | {"float", "int"} and {"float", "int"} <= arm_types:
         res.ok(rule, {"site": ap.where, "from_list first-element types": sorted(fl_types | {"float", "int"}), "dispatch arm accepts": sorted(arm_types)}, nontrivial="dispatch:row-types")
     else:
         res.fail(rule, finding("C19", rule, ap, ap.node, f"Candle.from_list recognises a leading {sorted(fl_types)} but the list arm of append only routes rows starting with {sorted(arm_types)}: an equivalent encoding raises TypeError", construct="append: row first-element types"))
     check_converters("C19", res, repo)
-    for name, inner in (("from_dicts", "Candle.from_dict"), ("from_lists", "Candle.from_list")):
-        m = repo.method("hexital.core.candle", "Candle", name)
-        if any(call_target(c) == inner for c in calls_in(m.node)):
-            res.ok(rule, {"site": m.where, "delegates": inner})
-        else:
-            res.fail(rule, finding("C19", rule, m, m.node, f"{name} no longer delegates to {inner}", construct=f"{name}: delegate"))
     from ..ownership import check_raw_copies
 
     check_raw_copies("C19", res, repo, want=("method", "append"))
 
 
 def check_converters(prop, res, repo, rule="R-DISPATCH"):
-    """every converter ends in the one constructor, each of the six slots filled from the key / position of the same name"""
-    for name in ("from_dict", "from_list"):
+    """every converter, evaluated over each well-formed row shape (convsem), ends in the one constructor with each of the six slots
+    holding the value of the key / position of the same name, as given; foreign keys never reach a slot; the caller's row is intact"""
+    from .. import convsem as cs
+
+    for name, shapes, batch in (("from_dict", cs.dict_shapes(), "from_dicts"), ("from_list", cs.list_shapes(), "from_lists")):
         m = repo.method("hexital.core.candle", "Candle", name)
-        ctor = [c for c in calls_in(m.node) if call_target(c) in ("cls", "Candle")]
-        if len(ctor) == 1 and len(ctor[0].args) + len(ctor[0].keywords) == 6:
-            slots = [ast.unparse(a) for a in ctor[0].args] + [f"{k.arg}={ast.unparse(k.value)}" for k in ctor[0].keywords]
-            order_ok = _slots_ok(name, ctor[0], m.node)
-            if order_ok:
-                res.ok(rule, {"site": m.where, "constructor": slots}, nontrivial=f"{name}:slots")
+        for label, status, detail in cs.run_converter(repo, name, shapes):
+            site = f"{name}: {label}"
+            if status == "ok":
+                res.ok(rule, {"site": m.where, "shape": label, "constructor": detail[:160]}, nontrivial=f"{name}:{label[:40]}")
+            elif status == "undecided":
+                res.errors.append(f"{m.where} {rule} Candle.{name}: cannot evaluate the converter on the row shape `{label}` ({detail}); the rule cannot decide it")
+            elif status == "raised" and label == "empty dict":
+                res.ok(rule, {"site": m.where, "shape": label, "raises": detail})
+            elif status == "raised":
+                res.fail(rule, finding(prop, rule, m, m.node, f"Candle.{name} raises {detail} on a well-formed row ({label}): an accepted encoding of the same candle is rejected", construct=site[:190]))
             else:
-                res.fail(rule, finding(prop, rule, m, ctor[0], "the converter does not hand (open, high, low, close, volume, timestamp) over unchanged from the corresponding keys/positions only (another key, or a coercion such as int()/float() on the way): a well-formed input row becomes a different candle than the same values given as a Candle (fractional volumes truncated, prices outside [low, high])"))
-        else:
-            res.fail(rule, finding(prop, rule, m, m.node, "converter no longer builds the candle through one constructor call with six slots", construct=f"{name}: constructor"))
+                res.fail(rule, finding(prop, rule, m, m.node, f"on a row of shape `{label}`: {detail} -- the same values given as a Candle (or in the other encodings) build a different candle", construct=site[:190]))
+        bm = repo.method("hexital.core.candle", "Candle", batch)
+        for label, status, detail in cs.run_batch(repo, batch, name, shapes):
+            if status == "ok":
+                res.ok(rule, {"site": bm.where, "shape": label, "result": detail})
+            elif status == "undecided":
+                res.errors.append(f"{bm.where} {rule} Candle.{batch}: cannot evaluate the batch converter ({detail}); the rule cannot decide it")
+            elif status == "raised":
+                res.fail(rule, finding(prop, rule, bm, bm.node, f"Candle.{batch} raises {detail} on {label}", construct=f"{batch}: {label}"[:190]))
+            else:
+                res.fail(rule, finding(prop, rule, bm, bm.node, f"{label}: {detail}", construct=f"{batch}: {label}"[:190]))
+
+
+def from_list_leading_types(repo):
+    """the kinds of first element for which Candle.from_list converts a row (evaluated, not pattern-matched)"""
+    from .. import convsem as cs
+
+    out = set()
+    for label, status, _ in cs.run_converter(repo, "from_list", cs.list_shapes()):
+        if status == "ok":
+            out.add("datetime" if label.startswith("[timestamp") else label.split("(")[-1].rstrip(")"))
+        elif status == "undecided":
+            return None
+    return out
 
 
 def _is_first_elem(node, fn=None) -> bool:
@@ -101,74 +121,6 @@ def _type_names(node):
     if isinstance(node, ast.Tuple):
         return {ast.unparse(e) for e in node.elts}
     return {ast.unparse(node)}
-
-
-def _slots_ok(name, ctor: ast.Call, fn=None) -> bool:
-    want = ["open", "high", "low", "close", "volume", "timestamp"]
-    if name == "from_dict":
-        # every key consulted for a slot is that slot's own name (any capitalisation): nothing else may stand in for a price
-        byname = dict(zip(want, ctor.args))
-        byname.update({k.arg: k.value for k in ctor.keywords if k.arg})
-        if set(byname) != set(want):
-            return False
-        def lookup(e) -> bool:
-            """the slot is read off the row and handed over as it is: row.get(key[, default]) / row[key], a choice between such
-            look-ups, or a literal default -- no coercion (int(), float(), round(), abs() ...) in between"""
-            if isinstance(e, ast.Constant):
-                return True
-            if isinstance(e, ast.Call) and isinstance(e.func, ast.Attribute) and e.func.attr == "get" and isinstance(e.func.value, ast.Name) and 1 <= len(e.args) <= 2 and not e.keywords:
-                return all(lookup(x) for x in e.args[1:])
-            if isinstance(e, ast.Subscript) and isinstance(e.value, ast.Name):
-                return True
-            if isinstance(e, ast.IfExp):
-                return lookup(e.body) and lookup(e.orelse)
-            if isinstance(e, ast.BoolOp):
-                return all(lookup(x) for x in e.values)
-            # anything else (a local helper that does the look-up ...) is fine unless a coercion sits in it
-            return not any(isinstance(n, ast.Call) and isinstance(n.func, ast.Name) and n.func.id in ("int", "float", "round", "abs", "str", "bool", "Decimal", "floor", "ceil", "trunc") for n in ast.walk(e))
-
-        for w in want:
-            a = byname[w]
-            keys = [n.value for n in ast.walk(a) if isinstance(n, ast.Constant) and isinstance(n.value, str)]
-            if not keys or any(k.lower() != w for k in keys):
-                return False
-            if not lookup(a):
-                return False
-        return True
-    kws = dict(zip(want, ctor.args))
-    kws.update({k.arg: k.value for k in ctor.keywords if k.arg})
-    # five positional slots of one row variable ...
-    rows = set()
-    for i, w in enumerate(want[:5]):
-        v = kws.get(w)
-        if not (isinstance(v, ast.Subscript) and isinstance(v.value, ast.Name) and isinstance(v.slice, ast.Constant) and v.slice.value == i):
-            return False
-        rows.add(v.value.id)
-    if len(rows) != 1:
-        return False
-    row = rows.pop()
-    # ... and the timestamp slot is the local that received the leading/trailing datetime taken off the row (None otherwise)
-    ts = kws.get("timestamp")
-    if not isinstance(ts, ast.Name) or fn is None:
-        return False
-
-    def defs(name):
-        return [n.value for n in ast.walk(fn) if isinstance(n, ast.Assign) and any(isinstance(t, ast.Name) and t.id == name for t in n.targets)]
-
-    def end_elem(e) -> bool:
-        """<list>[0] / <list>[-1] / <list>.pop(0|-1), possibly through one local"""
-        if isinstance(e, ast.Subscript) and isinstance(e.slice, (ast.Constant, ast.UnaryOp)) and ast.unparse(e.slice) in ("0", "-1"):
-            return True
-        if isinstance(e, ast.Call) and isinstance(e.func, ast.Attribute) and e.func.attr == "pop" and [ast.unparse(a) for a in e.args] in (["0"], ["-1"], []):
-            return True
-        if isinstance(e, ast.Name):
-            d = defs(e.id)
-            return bool(d) and all(end_elem(x) for x in d if not isinstance(x, ast.Name))
-        return False
-
-    srcs = defs(ts.id)
-    taken = [x for x in srcs if not (isinstance(x, ast.Constant) and x.value is None)]
-    return bool(taken) and all(end_elem(x) for x in taken)
 
 
 @register("C19")
